@@ -26,6 +26,8 @@ func inputFacing(fn *ssa.Function) bool {
 // ---- nil / lower-bound facts for the config-file package (analysis L3/L4) ----
 
 type fileSummary struct {
+	void        bool     // no error result: the facts hold after every call
+	stores      []string // "$recv.…" paths the function may overwrite
 	facts       []string // facts about "$recv.…" holding at every nil-error return
 	returnsRecv bool
 	requires    map[string]ssa.Instruction // facts about parameters needed at entry
@@ -98,6 +100,23 @@ func (fa *fileAnalysis) engine(fn *ssa.Function) *an.Facts {
 	d := descFn(func(v ssa.Value) string { return canon(raw.Of(v)) })
 	e := &an.Facts{Fn: fn, Entry: map[string]bool{}}
 	e.Gen = func(in ssa.Instruction, cur map[string]bool) {
+		if call, isCall := in.(*ssa.Call); isCall {
+			if s := fa.sums[an.Callee(call)]; s != nil && len(call.Call.Args) > 0 {
+				recvD := d.Of(call.Call.Args[0])
+				for _, p := range s.stores {
+					q := recvD + strings.TrimPrefix(p, s.recv)
+					delete(cur, "nn:"+q)
+					delete(cur, "ge1:"+q)
+				}
+				if s.void {
+					for _, f := range s.facts {
+						i := strings.Index(f, ":")
+						cur[f[:i+1]+recvD+strings.TrimPrefix(f[i+1:], s.recv)] = true
+					}
+				}
+			}
+			return
+		}
 		st, ok := in.(*ssa.Store)
 		if !ok {
 			return
@@ -117,6 +136,10 @@ func (fa *fileAnalysis) engine(fn *ssa.Function) *an.Facts {
 			cur["nn:"+path] = true
 		case *ssa.FieldAddr, *ssa.IndexAddr:
 			cur["nn:"+path] = true
+		case *ssa.Parameter:
+			if cur["nn:"+d.Of(v)] {
+				cur["nn:"+path] = true
+			}
 		case *ssa.UnOp:
 			if ptrField(v) {
 				q := d.Of(v)
@@ -149,6 +172,9 @@ func (fa *fileAnalysis) engine(fn *ssa.Function) *an.Facts {
 		if isNilConst(y) && (op == token.EQL || op == token.NEQ) {
 			nonNil := (op == token.EQL && !taken) || (op == token.NEQ && taken)
 			if ptrField(x) && nonNil {
+				cur["nn:"+d.Of(x)] = true
+			}
+			if _, isParam := x.(*ssa.Parameter); isParam && nonNil {
 				cur["nn:"+d.Of(x)] = true
 			}
 			// err == nil after a summarised call
@@ -197,24 +223,28 @@ func analyseFilePkg(c *core.Ctx) *fileAnalysis {
 			e := fa.engine(fn)
 			e.Run()
 			fa.engines[fn] = e
-			if fn.Signature.Recv() == nil || fn.Signature.Results().Len() != 2 {
+			if fn.Signature.Recv() == nil || (fn.Signature.Results().Len() != 2 && fn.Signature.Results().Len() != 0) {
 				continue
 			}
+			void := fn.Signature.Results().Len() == 0
 			recv := "$" + fn.Params[0].Name()
 			var common map[string]bool
-			retRecv := true
+			retRecv := !void
 			n := 0
 			for _, ret := range an.Returns(fn) {
-				if len(ret.Results) != 2 || !isNilConst(ret.Results[1]) {
+				if !void && (len(ret.Results) != 2 || !isNilConst(ret.Results[1])) {
 					continue
 				}
 				n++
-				if an.Strip(ret.Results[0]) != ssa.Value(fn.Params[0]) {
+				if !void && an.Strip(ret.Results[0]) != ssa.Value(fn.Params[0]) {
 					retRecv = false
 				}
 				at := e.At(ret)
 				if common == nil {
-					common = at
+					common = map[string]bool{}
+					for k := range at {
+						common[k] = true
+					}
 				} else {
 					for k := range common {
 						if !at[k] {
@@ -226,7 +256,19 @@ func analyseFilePkg(c *core.Ctx) *fileAnalysis {
 			if n == 0 {
 				continue
 			}
-			s := &fileSummary{returnsRecv: retRecv, recv: recv}
+			s := &fileSummary{returnsRecv: retRecv, recv: recv, void: void}
+			storeSet := map[string]bool{}
+			an.Instrs(fn, func(in ssa.Instruction) {
+				if st, ok := in.(*ssa.Store); ok && an.FieldOfAddr(st.Addr) != nil {
+					if p := fa.canon[fn](an.D().Of(st.Addr)); strings.HasPrefix(p, recv+".") {
+						storeSet[p] = true
+					}
+				}
+			})
+			for p := range storeSet {
+				s.stores = append(s.stores, p)
+			}
+			sort.Strings(s.stores)
 			for k := range common {
 				i := strings.Index(k, ":")
 				if strings.HasPrefix(k[i+1:], recv+".") {
@@ -891,29 +933,85 @@ func c14(c *core.Ctx, r *core.Report) {
 				if p.Ret != ret {
 					continue
 				}
-				isSlash, negRejected := false, false
+				// the arms are told apart by what they return as the unit: a parsed duration or the constant second
+				rateV := an.Strip(p.OnPath(stripAllocsOnPath(p, ret.Results[0])))
+				unitV := an.Strip(p.OnPath(stripAllocsOnPath(p, ret.Results[1])))
+				rate, unit := an.D().Of(rateV), an.D().Of(unitV)
+				atoi := callBehind(rateV, "strconv", "Atoi")
+				negRejected := false
 				for _, l := range p.Lits {
-					ld := an.D().Of(l.Cond)
-					if strings.HasPrefix(ld, "strings.Contains($rateArg, \"/\")") {
-						isSlash = l.Val
-					}
-					if bo, ok := l.Cond.(*ssa.BinOp); ok && bo.Op == token.LSS && an.D().Of(bo.Y) == "0" && strings.Contains(an.D().Of(bo.X), "strconv.Atoi(") && !l.Val {
+					if bo, ok := l.Cond.(*ssa.BinOp); ok && bo.Op == token.LSS && an.D().Of(bo.Y) == "0" && !l.Val && atoi != nil && callBehind(an.Strip(p.OnPath(stripAllocsOnPath(p, bo.X))), "strconv", "Atoi") == atoi {
 						negRejected = true
 					}
 				}
-				rate := an.D().Of(p.OnPath(stripAllocsOnPath(p, ret.Results[0])))
-				unit := an.D().Of(p.OnPath(stripAllocsOnPath(p, ret.Results[1])))
-				if isSlash {
+				countOK := atoi != nil && len(pr.Params) > 0 && dependsOn(atoi.Call.Args[0], pr.Params[0])
+				if pd := callBehind(unitV, "time", "ParseDuration"); pd != nil {
 					slash++
-					r.Check(negRejected && strings.Contains(rate, "strconv.Atoi($rateArg[0:strings.Index($rateArg, \"/\")])#0") && strings.Contains(unit, "time.ParseDuration("), "ParseRate#slash-arm", an.Pos(c, ret), "N/<duration>: count "+rate+", unit "+unit+", negatives rejected", "the `/` arm returns count "+rate+" and unit "+unit+sprintf(" (negative counts rejected: %v)", negRejected))
+					r.Check(negRejected && countOK && dependsOn(pd.Call.Args[0], pr.Params[0]), "ParseRate#slash-arm", an.Pos(c, ret), "N/<duration>: count "+rate+", unit "+unit+", negatives rejected", "the `/` arm returns count "+rate+" and unit "+unit+sprintf(" (negative counts rejected: %v)", negRejected))
 				} else {
 					bare++
-					r.Check(negRejected && rate == "strconv.Atoi($rateArg)#0" && unit == "1000000000", "ParseRate#bare-arm", an.Pos(c, ret), "bare N: count "+rate+", unit 1s, negatives rejected", "the bare-number arm returns count "+rate+" and unit "+unit+sprintf(" (negative counts rejected: %v)", negRejected))
+					r.Check(negRejected && countOK && unit == "1000000000", "ParseRate#bare-arm", an.Pos(c, ret), "bare N: count "+rate+", unit 1s, negatives rejected", "the bare-number arm returns count "+rate+" and unit "+unit+sprintf(" (negative counts rejected: %v)", negRejected))
 				}
 			}
 		}
 		r.Check(slash >= 1 && bare >= 1, "ParseRate#arms", c.Pos(pr.Pos()), sprintf("%d successful `/` paths, %d bare paths", slash, bare), "ParseRate does not have both a `/` arm and a bare-number arm that can succeed")
 	})
+}
+
+// callBehind: v is (a result of) a call of pkg.name.
+func callBehind(v ssa.Value, pkg, name string) *ssa.Call {
+	for i := 0; i < 6; i++ {
+		switch x := v.(type) {
+		case *ssa.Extract:
+			v = x.Tuple
+		case *ssa.Call:
+			if an.IsFunc(an.Callee(x), pkg, name) {
+				return x
+			}
+			return nil
+		case *ssa.Convert:
+			v = x.X
+		case *ssa.ChangeType:
+			v = x.X
+		default:
+			return nil
+		}
+	}
+	return nil
+}
+
+// dependsOn: v is computed (within one function) from src.
+func dependsOn(v, src ssa.Value) bool {
+	seen := map[ssa.Value]bool{}
+	var walk func(x ssa.Value) bool
+	walk = func(x ssa.Value) bool {
+		if x == src {
+			return true
+		}
+		if x == nil || seen[x] {
+			return false
+		}
+		seen[x] = true
+		if al, ok := x.(*ssa.Alloc); ok {
+			for _, st := range an.StoresTo(al) {
+				if walk(st.Val) {
+					return true
+				}
+			}
+			return false
+		}
+		in, ok := x.(ssa.Instruction)
+		if !ok {
+			return false
+		}
+		for _, op := range in.Operands(nil) {
+			if *op != nil && walk(*op) {
+				return true
+			}
+		}
+		return false
+	}
+	return walk(v)
 }
 
 func stripAllocsOnPath(p an.DPath, v ssa.Value) ssa.Value {
